@@ -299,7 +299,7 @@ def _incr_loop(first):
     inv = ('(__CPROVER_same_object (__p, qp) && LO <= TT && TT <= g_d1_nm && g_d1_nm < nn && nn == g_d1_n && qp == quot->_mp_d && qp[g_d1_nm] != ~(mp_limb_t) 0 && V_W_OK (qp, nn) && '
            + X('gk', 'g_d1_qk') + ' && ' + X('gj', 'g_d1_qj') + ' && ' + X('(nn - 1)', 'g_d1_qt') + ')').replace('TT', T).replace('LO', '0' if first else '1')
     hv = ('{ long V_t = nondet_long (); __CPROVER_assume (%d <= V_t && V_t <= g_d1_nm); __p = qp + V_t%s; }' % (0 if first else 1, '' if first else ' - 1'))
-    return dict(scalars=[], havoc_targets=['__p'], havoc=hv, slices=[('qp', 'nn * 8')], inv=inv, dec='(g_d1_nm - %s)' % T,
+    return dict(scalars=[], havoc_targets=['__p'], havoc=hv, havoc_inv={'V_t': T}, slices=[('qp', 'nn * 8')], inv=inv, dec='(g_d1_nm - %s)' % T,
                 head='__CPROVER_assume (%s < g_d1_nm ==> qp[%s] == ~(mp_limb_t) 0);' % (T, T))
 def _qui_unit(kind, with_rem):
     f = '__gmpz_%sdiv_q%s_ui' % (kind, 'r' if with_rem else '')
